@@ -185,6 +185,10 @@ class Engine(ExprMixin, StmtMixin, CallMixin, BuiltinMixin, EngineBase):
         # the typed-heap model: they become antecedents inside the quantifier instead of path assumptions
         facts = p.pc[n0:]
         del p.pc[n0:]
+        if facts:
+            # ... and, being consequences of the typed/closed-heap assumption (an allocated object's fields hold null
+            # or allocated objects of the declared class; lengths are non-negative), they are also assumed outright
+            p.assume(z3.ForAll(bound, z3.Implies(z3.And(guards) if guards else z3.BoolVal(True), z3.And(facts))))
         g = z3.And(guards + facts) if (guards or facts) else z3.BoolVal(True)
         if is_forall:
             return [(p, VBool(z3.ForAll(bound, z3.Implies(g, body))))]
@@ -206,6 +210,9 @@ class Engine(ExprMixin, StmtMixin, CallMixin, BuiltinMixin, EngineBase):
                 return STR
             if t.id == "ref":
                 return TRef(None)
+            if t.id == "real":
+                from .types import REAL
+                return REAL
             if t.id in self.classes:
                 d = self.classes[t.id]
                 return d.record if d.record is not None else TRef(t.id)
@@ -275,7 +282,7 @@ class Engine(ExprMixin, StmtMixin, CallMixin, BuiltinMixin, EngineBase):
         for a in node.args:
             cf = a.value
             c, f = cf.rsplit(".", 1)
-            key, ty = self.heap_key(c, f)
+            key, ty = (self.ALLOC, BOOL) if cf == "$.alloc" else self.heap_key(c, f)
             now = self.heap_arrays(p, key, ty)
             then = self.heap_arrays(p, key, ty, heap, epoch)
             conj.extend(x == y for x, y in zip(now, then) if not x.eq(y))
